@@ -75,7 +75,7 @@ type sched struct {
 	KeepHeld bool   `json:"keep_removals_held_at_shutdown,omitempty"`
 }
 
-var prioOf = map[string]int{"high": 1, "mid": 2, "low": 3}
+var prioOf = map[string]int{"High": 1, "mid": 2, "low": 3}
 
 func prioNum(name string) int {
 	if p, ok := prioOf[name]; ok {
@@ -117,7 +117,7 @@ processors:
         value: x-prio
       - key: priority_groups
         value:
-          high: 1
+          High: 1
           mid: 2
           low: 3
   Gen0:
@@ -1302,8 +1302,8 @@ func genSched() *rapid.Generator[sched] {
 		}}
 		// a palette per case: many equal priorities (arrival order matters) or many different ones
 		palette := rapid.SampledFrom([][]string{
-			{"low"}, {"high", "low"}, {"low", "mid", "high"}, {"mid", "mid", "low"}, {"", "other"},
-			{"high", "mid", "low", "low", "mid", "high", "", "other"},
+			{"low"}, {"High", "low"}, {"low", "mid", "High"}, {"mid", "mid", "low"}, {"", "other"},
+			{"High", "mid", "low", "low", "mid", "High", "", "other"},
 		}).Draw(t, "palette")
 		w10 := 10 * sc.Config.WindowS
 		loose := rapid.Custom(func(t *rapid.T) step {
